@@ -1,18 +1,17 @@
 import AITB.Model.Proto
 import AITB.Model.Sampling
+import AITB.Model.SamplingModels
 import AITB.Gen.C08Variant
 open AITB AITB.Sampling
 
 namespace DrvC08
 
-/-! The model of *the code that exists*: `AITB.Gen.C08Variant` (regenerated from the source on every
-    run by tools/extract_c08.py) says, for the three sites with a proposed repair, which form the
-    library currently has. -/
-def projectImpl (v : List Rat) : List Rat := if Gen.C08.projectFixed then projectFixed v else project v
-def sampleSparseImpl (d : Nat) (row rest : List (Nat × Rat)) (u : Rat) : Option Nat :=
-  if Gen.C08.sparseHasEndTest then some (sampleSparseFixed d row u) else sampleSparse row rest u
-def voseBuildImpl (p : List Rat) (avg : Rat) : List Rat × List Nat :=
-  if Gen.C08.voseFixed then voseBuildFixed p avg else voseBuild p avg
+/-! The model of *the code that exists* (round 2): the three repairs are merged, so the driver uses the
+    repaired models directly.  `tools/extract_c08.py` fails the run (broken tie) when the text of any
+    modelled function is no longer the form these models were written from. -/
+def projectImpl (v : List Rat) : List Rat := projectFixed v
+def sampleSparseImpl (d : Nat) (row _rest : List (Nat × Rat)) (u : Rat) : Option Nat := some (sampleSparseFixed d row u)
+def voseBuildImpl (p : List Rat) (avg : Rat) : List Rat × List Nat := voseBuildFixed p avg
 
 def tolCmp : Rat := 1 / 1000000000          -- 1e-9: comparison / conditioning margin
 def two53 : Nat := 2 ^ 53
@@ -163,7 +162,7 @@ def vose : P String := do
   let (mp, ma) := voseBuildImpl p avg
   let mthr := mp.map clamp01
   let ma := (List.range n).map (fun i => if mthr.getD i 0 == 1 then i else ma.getD i 0)
-  let exact := (isPow2 n && p.all (fun q => (2 ^ 40) % q.den == 0)) || decide (tolCmp ≤ voseMargin Gen.C08.voseFixed p avg)
+  let exact := (isPow2 n && p.all (fun q => (2 ^ 40) % q.den == 0)) || decide (tolCmp ≤ voseMargin true p avg)
   let slack := absQ (1 - p.sum) + tolCmp
   let v : Verdict := { tag := if n ≤ 1 then "trivial" else if exact then "vose" else "vose-inexact" }
   let v := v.failIf (!(alias.all (fun a => decide (a < n)))) s!"{comp} alias_out_of_range {alias}"
@@ -232,6 +231,138 @@ def fsr : P String := do
   let v := if v.tag == "illc" then v else v.diffIf (sampleFactored rows us != s1) s!"{comp} model={sampleFactored rows us} impl={s1}"
   return v.render
 
+/-- one draw of a stored sparse row: support clause, interval clause on the stored values, model = implementation -/
+def storedOne (comp : String) (d : Nat) (row : List (Nat × Rat)) (v : Verdict) (u : Rat) (r : Nat) : Verdict :=
+  sparseOne comp d row [] v (u, r)
+
+/-- `spsr S row… u R | s1 reward` : MDP::SparseModel::sampleSR on the stored row and the stored reward table -/
+def spsr : P String := do
+  let S ← P.nat; let row ← entries; let u ← P.q; let rtab ← P.q; P.bar
+  let s1 ← P.nat; let rew ← P.q; P.eof
+  let comp := "SparseModel::sampleSR"
+  let v : Verdict := { tag := "spsr" }
+  let v := storedOne comp S row v u s1
+  let v := v.failIf (rew != rtab) s!"{comp} wrong_reward impl={ratStr rew} table={ratStr rtab}"
+  let m := sampleSRSparse S (fun _ _ => row) (fun _ _ => rtab) 0 0 u
+  let v := if v.tag == "illc" then v else v.diffIf (m != (s1, rew)) s!"{comp} model={m.1} impl={s1}"
+  return v.render
+
+/-- `spsor S O trow… nS orows… u1 u2 R | s1 o reward` : POMDP::SparseModel::sampleSOR -/
+def spsor : P String := do
+  let S ← P.nat; let O ← P.nat; let trow ← entries; let orows ← P.list entries
+  let u1 ← P.q; let u2 ← P.q; let rtab ← P.q; P.bar
+  let s1 ← P.nat; let ob ← P.nat; let rew ← P.q; P.eof
+  let comp := "SparseModel::sampleSOR"
+  let v : Verdict := { tag := "spsor" }
+  let v := storedOne comp S trow v u1 s1
+  let v := storedOne (comp ++ "-obs") O (orows.getD s1 []) v u2 ob
+  let v := v.failIf (rew != rtab) s!"{comp} wrong_reward impl={ratStr rew} table={ratStr rtab}"
+  let m := sampleSORSparse S O (fun _ _ => trow) (fun _ x => orows.getD x []) (fun _ _ => rtab) 0 0 u1 u2
+  let v := if v.tag == "illc" then v else v.diffIf (m != (s1, ob, rew)) s!"{comp} model={m.1},{m.2.1} impl={s1},{ob}"
+  return v.render
+
+/-- `spor O orow… u R | o reward` : POMDP::SparseModel::sampleOR -/
+def spor : P String := do
+  let O ← P.nat; let orow ← entries; let u ← P.q; let rtab ← P.q; P.bar
+  let ob ← P.nat; let rew ← P.q; P.eof
+  let comp := "SparseModel::sampleOR"
+  let v : Verdict := { tag := "spor" }
+  let v := storedOne comp O orow v u ob
+  let v := v.failIf (rew != rtab) s!"{comp} wrong_reward impl={ratStr rew} table={ratStr rtab}"
+  let m := sampleORSparse O (fun _ _ => orow) (fun _ _ => rtab) 0 0 0 u
+  let v := if v.tag == "illc" then v else v.diffIf (m != (ob, rew)) s!"{comp} model={m.1} impl={ob}"
+  return v.render
+
+def parentBlock : P (ParentSet × List (List Rat)) := do
+  let agents ← P.nats; let feats ← P.natss; let rows ← P.qss
+  pure ({ agents := agents, features := feats }, rows)
+
+def basisBlock : P Basis2D := do
+  let tag ← P.nats; let atag ← P.nats; let vals ← P.qss
+  pure { tag := tag, actionTag := atag, values := vals }
+
+/-- `coop sr|srs S… A… F (agents feats rows)*F B (tag atag values)*B s… a… us… | s1… reward rews…`
+    CooperativeModel::sampleSR / sampleSRs with the whole model on the line: the row ids are computed by the
+    model of `DDNGraph::getId`, the reward by the model of `FactoredMatrix2D::getValue` -/
+def coop : P String := do
+  let mode ← P.tok; let S ← P.nats; let A ← P.nats
+  let blocks ← P.list parentBlock; let bases ← P.list basisBlock
+  let s ← P.nats; let a ← P.nats; let us ← P.qs; P.bar
+  let s1 ← P.nats; let rew ← P.q; let rews ← P.qs; let tp ← P.q; P.eof
+  let comp := "CooperativeModel::sample" ++ (if mode == "srs" then "SRs" else "SR")
+  let parents := blocks.map (·.1); let T := blocks.map (·.2)
+  if us.length != parents.length || s1.length != parents.length then P.fail
+  let v : Verdict := { tag := "coop-" ++ mode }
+  -- property clauses on the implementation's answer, factor by factor, against the row the MODEL's getId selects
+  let rowsSel := blocks.map (fun b => b.2.getD (ddnGetId S A b.1 s a) [])
+  let v := v.failIf (!((blocks.all (fun b => decide (ddnGetId S A b.1 s a < b.2.length))))) s!"{comp} row_id_out_of_range"
+  let v := (rowsSel.zip (us.zip s1)).foldl (fun v (row, ur) => denseOne comp row v ur) v
+  let mr := factoredReward S A bases s a
+  let v := v.failIf (rew != mr) s!"{comp} wrong_reward impl={ratStr rew} table={ratStr mr}"
+  let v := if mode == "srs" then
+      v.failIf (rews != (coopSampleSRs S A parents T bases s a us).2) s!"{comp} wrong_basis_rewards impl={rews.map ratStr}"
+    else v
+  -- `DDN::getTransitionProbability(s,a,s1)` = product of the selected rows' entries = volume of the box of draws mapped to s1
+  let mtp := (rowsSel.zip s1).foldl (fun acc (row, k) => acc * row.getD k 0) 1
+  let v := v.diffIf (!(closeQ tolCmp mtp tp)) s!"{comp} getTransitionProbability model={ratStr mtp} impl={ratStr tp}"
+  let v := if v.tag == "illc" then v else v.diffIf ((coopSampleSR S A parents T bases s a us).1 != s1)
+    s!"{comp} model={(coopSampleSR S A parents T bases s a us).1} impl={s1}"
+  return v.render
+
+def finQ? : XRat → Option Rat
+  | .fin q => some q
+  | _ => none
+
+/-- `dir params… gammas… | out… insync` : sampleDirichletDistribution as a function of its gamma draws -/
+def dir : P String := do
+  let params ← P.qs; let gs ← P.qs; P.bar; let outx ← P.xs; let insync ← P.bool; P.eof
+  let comp := "sampleDirichletDistribution"
+  if gs.length != params.length then P.fail
+  let v : Verdict := { tag := if gs.length ≤ 1 then "trivial" else "dir" }
+  match outx.mapM finQ? with
+  | none =>
+    -- NaN / inf in the result: never a probability vector; attributed to gamma underflow when every draw is exactly 0
+    let kind := if gs.all (fun g => g == 0) then "not_probability@gamma_underflow" else "not_probability"
+    return (v.failIf true s!"{comp} {kind} gammas={gs.map ratStr} out={outx.map toString}").render
+  | some out =>
+    -- theorems assume non-negative draws with a positive sum (dirichlet_valid, dirichlet_valid_nonneg)
+    if !(gs.all (fun g => decide (0 ≤ g)) && decide (0 < gs.sum)) then return "skip gamma_draws_not_positive" else
+    let v := if gs.all (fun g => decide (0 < g)) then v else { v with tag := "dir-some-draws-zero" }
+    let v := v.failIf (out.length != gs.length) s!"{comp} wrong_length {out.length}"
+    let v := v.failIf (!(out.all (fun x => decide (0 ≤ x)) && isProb out)) s!"{comp} not_probability sum={ratStr out.sum}"
+    -- the defining clause of the sampler: the normalised gamma draws (Dirichlet(α) = (Γ(α_i))_i / Σ)
+    let v := v.failIf (!(closeL (dirichletFromGammas gs) out)) s!"{comp} not_normalised_gamma_draws model={(dirichletFromGammas gs).map ratStr} impl={out.map ratStr}"
+    let v := v.diffIf (!insync) s!"{comp} draws_consumed"
+    return v.render
+
+/-- `beta a b x y | r insync` : sampleBetaDistribution -/
+def beta : P String := do
+  let _a ← P.q; let _b ← P.q; let x ← P.q; let y ← P.q; P.bar; let rx ← P.x; let insync ← P.bool; P.eof
+  let comp := "sampleBetaDistribution"
+  let v : Verdict := { tag := "beta" }
+  match finQ? rx with
+  | none =>
+    let kind := if x == 0 && y == 0 then "outside_unit_interval@gamma_underflow" else "outside_unit_interval"
+    return (v.failIf true s!"{comp} {kind} x={ratStr x} y={ratStr y} result={rx}").render
+  | some r =>
+    if !(decide (0 ≤ x) && decide (0 ≤ y) && decide (0 < x + y)) then return "skip gamma_draws_not_positive" else
+    let v := v.failIf (!(decide (0 ≤ r) && decide (r ≤ 1))) s!"{comp} outside_unit_interval {ratStr r}"
+    -- the defining clause: Beta(a,b) = X / (X + Y) with X ~ Γ(a), Y ~ Γ(b) drawn in this order
+    let v := v.failIf (!(closeQ tolCmp (betaFromGammas x y) r)) s!"{comp} not_gamma_ratio model={ratStr (betaFromGammas x y)} impl={ratStr r}"
+    let v := v.diffIf (!insync) s!"{comp} draws_consumed"
+    return v.render
+
+/-- `projx v… | out…` : non-finite input — outside the property's quantifier (see docs/C08.md); the run only shows it does not crash -/
+def projx : P String := do
+  let _v ← P.xs; P.bar; let _out ← P.xs; P.eof
+  return "ok trivial outside_quantifier"
+
+/-- `inst <what> 0|1` : a documented overload that the harness could (1) or could not (0) instantiate -/
+def inst : P String := do
+  let what ← P.tok; let ok ← P.bool; P.eof
+  let v : Verdict := { tag := "trivial" }
+  return (v.failIf (!ok) s!"sampleDirichletDistribution does_not_instantiate {what}").render
+
 def handle (toks : List String) : String :=
   let r := match toks with
     | "dense" :: rest => P.run dense rest
@@ -244,6 +375,14 @@ def handle (toks : List String) : String :=
     | "sor" :: rest => P.run sor rest
     | "fsr" :: rest => P.run fsr rest
     | "isprob" :: rest => P.run isprob rest
+    | "spsr" :: rest => P.run spsr rest
+    | "spsor" :: rest => P.run spsor rest
+    | "spor" :: rest => P.run spor rest
+    | "coop" :: rest => P.run coop rest
+    | "dir" :: rest => P.run dir rest
+    | "beta" :: rest => P.run beta rest
+    | "projx" :: rest => P.run projx rest
+    | "inst" :: rest => P.run inst rest
     | _ => none
   r.getD "bad-op"
 
